@@ -45,9 +45,11 @@ def cases(seed, tier):
         keys = [str(x) for x in rng.choice(NODE_KEYS, int(rng.integers(2, 5)), replace=False)]
         if "capacitance" not in keys and k % 3 == 0:
             keys.append("capacitance")
+        if k % 8 in (3, 6) and "v" not in keys:
+            keys.append("v")
         single = (k % 4 == 3)
         if single:  # one family alone (no other trainable, no data_set): derivative paths that only exist in isolation
-            keys = [NODE_KEYS[(k // 4) % len(NODE_KEYS)]]
+            keys = [NODE_KEYS[(k // 4) % len(NODE_KEYS)]] if k % 8 != 3 else ["v"]
         for key in keys:
             share = str(rng.choice(["comp", "branch", "cell", "all"]))
             dom = hh_rows if key.startswith("HH_") else list(range(ncomp))
@@ -67,7 +69,7 @@ def cases(seed, tier):
             cl = [f[0], T // f[0]] if f and k % 2 else [T]
         out.append({"spec": spec, "trainables": tr, "backend": backend, "solver": solver, "checkpoint": cl,
                     "wseed": int(rng.integers(0, 2**31)), "data_set": bool(k % 2 == 0) and not single, "jvp": bool(k % 3 == 0),
-                    "fixed_stim": bool(single)})
+                    "fixed_stim": bool(single), "singular_v": bool(k % 8 in (3, 6))})
     return out
 
 
@@ -80,6 +82,11 @@ def run_case(case, rec):
 
     spec = case["spec"]
     T, dt = spec["T"], spec["dt"]
+    if case.get("singular_v"):
+        # where-guards of the rate functions must differentiate correctly AT the removable singularities
+        pv = spec["params"]["v"]
+        for j, r in enumerate(spec["ins"][0]["rows"]):
+            pv[r] = [-55.0, -40.0][j % 2]
     m, recs = rec.call("build", models.build_active, spec, stimulate=False, record="v")
     rng = np.random.default_rng(case["wseed"])
     families, sharing = [], []
